@@ -215,6 +215,34 @@ theorem BT.sep_append {b r : List Char} (hb : BT b) (h : b ≠ [] ∨ Sep r) : S
   | hash x t _ _ => rfl
   | block x t _ _ => rfl
 
+theorem blankStart_cases {c : Char} (h : notBlankStart c = false) :
+    c = ' ' ∨ c = '\t' ∨ c = '\r' ∨ c = '\n' ∨ c = '/' ∨ c = '#' := by
+  have hb' : ¬c = ' ' → ¬c = '\t' → ¬c = '\r' → ¬c = '\n' → ¬c = '/' → c = '#' := by
+    simpa [notBlankStart, isMultispace, or_assoc] using h
+  by_cases h1 : c = ' '; · exact Or.inl h1
+  by_cases h2 : c = '\t'; · exact Or.inr (Or.inl h2)
+  by_cases h3 : c = '\r'; · exact Or.inr (Or.inr (Or.inl h3))
+  by_cases h4 : c = '\n'; · exact Or.inr (Or.inr (Or.inr (Or.inl h4)))
+  by_cases h5 : c = '/'; · exact Or.inr (Or.inr (Or.inr (Or.inr (Or.inl h5))))
+  exact Or.inr (Or.inr (Or.inr (Or.inr (Or.inr (hb' h1 h2 h3 h4 h5)))))
+
+theorem BT.head_blankStart {c : Char} {t : List Char} (h : BT (c :: t)) : notBlankStart c = false := by
+  cases h with
+  | ws _ _ hc _ => simp [notBlankStart, hc]
+  | line _ _ _ _ => rfl
+  | hash _ _ _ _ => rfl
+  | block _ _ _ _ => rfl
+
+/-- a property of every blank starter and of the head of `r` holds for the head of `b ++ r` -/
+theorem BT.hdP_append {f : Char → Bool} {b r : List Char} (hb : BT b)
+    (hf : ∀ c, notBlankStart c = false → f c = true) (hr : hdP f r = true) : hdP f (b ++ r) = true := by
+  cases b with
+  | nil => exact hr
+  | cons c t => exact hf c hb.head_blankStart
+
+theorem blankStart_not_identChar (c : Char) (h : notBlankStart c = false) : (!isIdentChar c) = true := by
+  rcases blankStart_cases h with h | h | h | h | h | h <;> subst h <;> decide
+
 /-! ### `blank` reads exactly a rendered blank -/
 
 theorem findSub_noSS : ∀ (x r : List Char), noSS x = true →
